@@ -35,6 +35,24 @@ def make(case):
         return IndentationGroup("/repo/tests/data/" + case["recorded"])[
             case.get("enum", 0)]
     mk = case["model"]
+    if case.get("lscale"):
+        # the same experiment with all lengths multiplied by a factor
+        # (stiff sample, stiff cantilever: indentations of a few nm) and a
+        # short indentation part, so that with a lagged force maximum the
+        # farthest point is not simply the force maximum
+        ls = case["lscale"]
+        assert mk == "hertz_para"
+        tr = synth.truth_params(mk, contact_point=3e-7 * ls, baseline=2e-10,
+                                E=MODEL_E[mk] * ls ** -1.5)
+        clean = synth.make_arrays(mk, tr, n_app=case["n"], n_ret=case["n"],
+                                  x_start=2e-6 * ls, depth=5e-7 * ls,
+                                  k_spring=0.05 / ls)
+        Fmax = float(np.max(clean["force"]) - 2e-10)
+        return synth.make_curve(
+            mk, tr, n_app=case["n"], n_ret=case["n"], x_start=2e-6 * ls,
+            depth=5e-7 * ls, k_spring=0.05 / ls,
+            noise=case["noise"] * Fmax, seed=4, lag=case["lag"],
+            innate_tip=False)
     tr = synth.truth_params(mk, contact_point=3e-7, baseline=2e-10,
                             **{("E_S" if mk.startswith("power") else "E"):
                                MODEL_E[mk]})
@@ -393,6 +411,15 @@ def cases(tier):
                     cs.append({"kind": "grid", "model": mk, "noise": noise,
                                "tilt": 0.0, "drift": 0.0, "lag": lag,
                                "quant": 0.0, "n": 300, "offset": offset})
+    # all lengths scaled down: piezo travel of 15 nm, 3 nm and 0.5 nm
+    # past the contact point
+    for ls in (1.0, 0.03, 0.006, 0.001):
+        for lag in (0, 20, 28):
+            for noise in (0.0, 0.01):
+                cs.append({"kind": "grid", "model": "hertz_para",
+                           "noise": noise, "tilt": 0.0, "drift": 0.0,
+                           "lag": lag, "quant": 0.0, "n": 300,
+                           "lscale": ls})
     # curves that come with a tip position of their own (exported data)
     for mk in ("hertz_para", "hertz_cone"):
         for noise in (0.0, 0.01):
